@@ -15,11 +15,10 @@ TInscribedEdge == 3000    \* stations manufactured by the edge methods (first / 
 TContact == 400           \* contact points lie on the section
 TContactRadius == 20      \* ... one radius from the centre
 TLaw == 120               \* centre on the generating camber / radius on the law
-TEdgeOnSection == 60
 TPartition == 20
 TInvR == 40               \* max-thickness radius across variants
 TInvLen == 3000           \* camber length across variants (edge methods move the ends a little)
-TInvEdge == 12000         \* edge points across variants (1.2 % chord: the edge heuristics are sensitive to the start vertex)
+TInvTmax == 400           \* centre of the largest inscribed circle across variants (measured: 0)
 
 Interior(s, glen) == s[14] > glen \div 100 /\ s[14] < glen - glen \div 100     \* projects strictly inside the generating camber
 
@@ -38,7 +37,16 @@ Monotone(st) == \A k \in 1..(Len(st) - 1) : st[k][11] < st[k + 1][11]
 TrueSense(st, glen) ==
     /\ st[1][14] < st[Len(st)][14]
     /\ \A k \in 1..(Len(st) - 1) : (Interior(st[k], glen) /\ Interior(st[k + 1], glen)) => st[k][14] <= st[k + 1][14] + TLaw
-TEdgeTruth == 30000       \* a located edge point against the true end of the generating envelope (3 % chord: gross, catches swapped ends)
+\* Edge-location methods fall into two classes: constructions that are exact up to the discretisation of the section
+\* (fit, intersect, trace, open, opengap) and documented heuristics / randomised searches (converge, ransac, const).
+\* Measured on the thorough instance: exact class <= 12 (invariance) and <= 230 (truth); heuristic class <= 1340 and <= 1340
+\* - except ConstRadiusEdge at the leading edge (31 000 / 19 600), which is recorded as known finding C10-K2.
+ExactClass == {"fit", "intersect", "trace", "open", "opengap"}
+ClassTol(kind, tight, mid) == IF kind \in ExactClass THEN tight ELSE mid
+TEdgeTruthTight == 1000   \* a located edge point against the true end of the generating envelope
+TEdgeTruthMid == 5000
+TInvEdgeTight == 600      \* a located edge point across the five variants of one section
+TInvEdgeMid == 4000
 \* centres on the generating camber and radii on the law; beyond the camber ends (inside the end caps) an inscribed
 \* circle is internally tangent to the cap: centre offset and radius defect cancel
 FollowsLaw(st, glen) == \A k \in 1..Len(st) :
